@@ -6,10 +6,15 @@ GUARD   := EPHEMERALNET_VERIF
 
 CXX_A   := clang++
 CXX_T   := g++
+CXX_G   := g++
 COMMON  := -g -D_FILE_OFFSET_BITS=64 -D$(GUARD) -DEPHEMERALNET_VERSION='"v1.0.5"' -I$(REPO)/include -Iharness -pthread -Wno-deprecated-declarations
 SAN_A   := -fsanitize=address,undefined -fno-sanitize-recover=undefined -fno-omit-frame-pointer
 FLAGS_A := -std=c++20 -O1 $(COMMON) $(SAN_A) -fsanitize=fuzzer-no-link
 FLAGS_T := -std=c++20 -O1 $(COMMON) -fsanitize=thread
+# second compiler for the pure parsing / codec / crypto properties: g++ at the product's optimisation level with its own
+# ASan+UBSan (it instruments things clang 14 does not, e.g. abs(INT64_MIN), and optimises UB differently)
+SAN_G   := -fsanitize=address,undefined -fno-sanitize-recover=undefined -fno-omit-frame-pointer
+FLAGS_G := -std=c++20 -O2 $(COMMON) $(SAN_G)
 LIBS    := -lcrypto -lcurl -lpthread
 
 # ---- repository sources -------------------------------------------------------------
@@ -17,6 +22,10 @@ REPO_SRCS := $(shell cd $(REPO) && find src -name '*.cpp' | sort)
 LIB_SRCS  := $(filter-out src/main.cpp src/relay/main.cpp,$(REPO_SRCS))
 LIB_OBJS_A := $(patsubst src/%.cpp,$(B)/asan/%.o,$(LIB_SRCS))
 LIB_OBJS_T := $(patsubst src/%.cpp,$(B)/tsan/%.o,$(LIB_SRCS))
+GUB_SRCS   := $(filter src/protocol/%.cpp src/crypto/%.cpp src/security/%.cpp src/core/UpdateCheck.cpp src/core/Types.cpp src/daemon/StructuredLogger.cpp,$(LIB_SRCS))
+LIB_OBJS_G := $(patsubst src/%.cpp,$(B)/gub/%.o,$(GUB_SRCS))
+GCC_IDS    := C08 C09 C10 C13 C15 C16 C17 C18 C33 C37 C38
+GCC_BINS   := $(patsubst %,$(B)/bin/%_rc_gcc,$(GCC_IDS))
 
 # ---- harnesses ------------------------------------------------------------------------
 HARNESS_SRCS := $(wildcard harness/C[0-9][0-9].cpp)
@@ -33,11 +42,13 @@ EXTRA_C11 := $(B)/h/shim_main.o
 EXTRA_C31 := $(B)/h/shim_main.o
 EXTRA_C33 := $(B)/h/shim_nat.o
 EXTRA_C34 := $(B)/h/shim_nat.o
+EXTRAG_C10 := $(B)/hg/shim_shamir.o
+EXTRAG_C33 := $(B)/hg/shim_nat.o
 
 .PHONY: all repo bins clean tsan
 all: repo bins
 repo: $(B)/asan/libeph.a $(B)/bin/eph $(B)/bin/eph-relay-server
-bins: $(RC_BINS) $(FUZZ_BINS) $(if $(wildcard harness/C36_tsan.cpp),$(B)/bin/C36_tsan)
+bins: $(RC_BINS) $(FUZZ_BINS) $(GCC_BINS) $(if $(wildcard harness/C36_tsan.cpp),$(B)/bin/C36_tsan)
 tsan: $(B)/tsan/libeph.a
 
 .SECONDARY:
@@ -77,6 +88,23 @@ $(B)/bin/C36_tsan: harness/C36_tsan.cpp $(B)/tsan/libeph.a
 	@mkdir -p $(dir $@)
 	$(CXX_T) $(FLAGS_T) -MMD -MP -o $@ $< $(B)/tsan/libeph.a $(LIBS)
 
+# ---- g++ ASan/UBSan variant of the leaf modules (second-compiler runs of the pure properties) -----
+$(B)/gub/%.o: $(REPO)/src/%.cpp
+	@mkdir -p $(dir $@)
+	$(CXX_G) $(FLAGS_G) -MMD -MP -c $< -o $@
+
+$(B)/gub/libeph.a: $(LIB_OBJS_G)
+	@rm -f $@
+	ar rcs $@ $^
+
+$(B)/hg/%.o: harness/%.cpp
+	@mkdir -p $(dir $@)
+	$(CXX_G) $(FLAGS_G) -DVERIF_REPO='"$(REPO)"' -MMD -MP -c $< -o $@
+
+$(B)/hg/runner_rc.o: harness/runner.cpp
+	@mkdir -p $(dir $@)
+	$(CXX_G) $(FLAGS_G) -DVERIF_ENGINE_RC -MMD -MP -c $< -o $@
+
 # ---- harness objects ----------------------------------------------------------------------
 $(B)/h/%.o: harness/%.cpp
 	@mkdir -p $(dir $@)
@@ -99,6 +127,10 @@ $(B)/h/runner_fuzz.o: harness/runner.cpp
 $(B)/bin/%_rc: $(B)/h/%.o $(B)/h/runner_rc.o $(COMMON_OBJS) $$(EXTRA_$$*) $(B)/asan/libeph.a
 	@mkdir -p $(dir $@)
 	$(CXX_A) $(SAN_A) -o $@ $(B)/h/$*.o $(B)/h/runner_rc.o $(COMMON_OBJS) $(EXTRA_$*) $(B)/asan/libeph.a -lrapidcheck $(LIBS)
+
+$(B)/bin/%_rc_gcc: $(B)/hg/%.o $(B)/hg/runner_rc.o $(B)/hg/vclock.o $(B)/hg/refs.o $$(EXTRAG_$$*) $(B)/gub/libeph.a
+	@mkdir -p $(dir $@)
+	$(CXX_G) $(SAN_G) -o $@ $(B)/hg/$*.o $(B)/hg/runner_rc.o $(B)/hg/vclock.o $(B)/hg/refs.o $(EXTRAG_$*) $(B)/gub/libeph.a -lrapidcheck $(LIBS)
 
 $(B)/bin/%_fuzz: $(B)/h/%.o $(B)/h/runner_fuzz.o $(COMMON_OBJS) $$(EXTRA_$$*) $(B)/asan/libeph.a
 	@mkdir -p $(dir $@)
